@@ -481,3 +481,94 @@ func fileHandleRules(c *Ctx) {
 	R.Check(nOpen >= 3, "R14k", c.Cfg+"open-sites", "", "the os.Open sites of Put / get / availableOrTryProxy were analysed", fmt.Sprintf("found %d", nOpen))
 	R.Check(nDropPaths > 0, "R04h", c.Cfg+"open-failure-paths", "", "paths on which the open under the lock fails were found", "none found")
 }
+
+// R14l: elements that the code itself sets to nil.  findMissingLocalCAS clears the digests it
+// found (blobs[i] = nil); whoever walks such a slice afterwards must test the element before it
+// dereferences it (a nil *Digest dereference panics the handler, here while results of other
+// requests are pending).
+func nilledElements(c *Ctx) {
+	R := c.R
+	R.Rule("R14l", "E2", "elements a callee may have set to nil are tested before they are dereferenced: after a call to a function that assigns nil to elements of a slice parameter, x[i].f on that slice is dominated by x[i] != nil", 1)
+	// callees that nil elements of a slice parameter
+	nils := map[string]int{}
+	for _, fi := range c.P.FuncsInPkg("/cache/disk") {
+		if fi.Decl.Body == nil || strings.HasSuffix(c.P.Fset.Position(fi.Decl.Pos()).Filename, "_test.go") {
+			continue
+		}
+		info := fi.Pkg.TypesInfo
+		ast.Inspect(fi.Decl.Body, func(n ast.Node) bool {
+			as, ok := n.(*ast.AssignStmt)
+			if !ok || len(as.Lhs) != 1 || len(as.Rhs) != 1 || !isNilIdent(info, as.Rhs[0]) {
+				return true
+			}
+			if ix, ok := ast.Unparen(as.Lhs[0]).(*ast.IndexExpr); ok {
+				for i := 0; ; i++ {
+					po := paramObj(fi, i)
+					if po == nil {
+						break
+					}
+					if identObj(info, ix.X) == po {
+						nils[fi.Key] = i
+					}
+				}
+			}
+			return true
+		})
+	}
+	R.Check(len(nils) > 0, "R14l", c.Cfg+"nil-ing-callees", "", "functions that clear elements of a slice parameter were found (findMissingLocalCAS)", "none found")
+	n := 0
+	for _, fi := range c.P.FuncsInPkg("/cache/disk") {
+		if fi.Decl.Body == nil || strings.HasSuffix(c.P.Fset.Position(fi.Decl.Pos()).Filename, "_test.go") {
+			continue
+		}
+		calls := false
+		for _, call := range callsIn(fi.Decl.Body, true) {
+			if _, ok := nils[calleeKey(fi.Pkg.TypesInfo, call)]; ok {
+				calls = true
+			}
+		}
+		if !calls {
+			continue
+		}
+		key := fi.Key
+		var b *Base
+		b = NewBase(Hooks{
+			EveryCall: func(x *Exec, call *ast.CallExpr, s St) []St {
+				if k, ok := nils[calleeKey(x.Fn.Info, call)]; ok && k < len(call.Args) {
+					if t, ok := b.Term(x, call.Args[k], s); ok {
+						s = s.Set("nilled:"+t, "1")
+					}
+				}
+				return []St{s}
+			},
+			Observe: func(x *Exec, e ast.Expr, s St) {
+				sel, ok := e.(*ast.SelectorExpr)
+				if !ok {
+					return
+				}
+				ix, ok := ast.Unparen(sel.X).(*ast.IndexExpr)
+				if !ok {
+					return
+				}
+				if _, isPtr := x.Fn.Info.TypeOf(ix).(*types.Pointer); !isPtr {
+					return
+				}
+				bt, ok := b.Term(x, ix.X, s)
+				if !ok || s.Get("nilled:"+bt) != "1" {
+					return
+				}
+				n++
+				et, _ := b.Term(x, ix, s)
+				R.Check(s.Get("n:"+et) == "nonnil", "R14l", fmt.Sprintf("%s%s:%s", c.Cfg, key, strings.ReplaceAll(exprStr(sel), " ", "")), c.P.Pos(sel.Pos()),
+					"the element is known to be non-nil where it is dereferenced", exprStr(sel)+": the element may have been set to nil by the callee that cleared the digests it found; dereferencing it panics", x.Trace()...)
+			},
+		})
+		b.H.Call = errFork(b)
+		x := NewExec(c.P.FlowOf(fi), b)
+		x.Run(newSt())
+		if x.Aborted != "" {
+			R.Fail("R14l", c.Cfg+key+":explore", "", "exploration did not complete: "+x.Aborted)
+		}
+	}
+	R.Check(n > 0, "R14l", c.Cfg+"dereference-sites", "", "dereferences of possibly cleared elements were analysed", "none found")
+}
